@@ -46,21 +46,3 @@ pub fn read_varint(reader: &mut Cursor) -> (r: Result<(u64, usize)>)
 {
     unimplemented!()
 }
-
-/// SHIM for HashMap<String, usize> (only insert/clear are used by the extracted code)
-#[verifier::external_body]
-pub struct StreamMap {
-    _p: core::marker::PhantomData<u8>,
-}
-
-impl StreamMap {
-    #[verifier::external_body]
-    pub fn insert(&mut self, k: String, v: usize) -> (r: Option<usize>) {
-        unimplemented!()
-    }
-
-    #[verifier::external_body]
-    pub fn clear(&mut self) {
-        unimplemented!()
-    }
-}
